@@ -490,4 +490,222 @@ theorem handlerPoll_le : ∀ (fuel : Nat) (r : AReq) (h : HState) (e : Env)
       | (cases hh; hp_mid)
       | (refine TLe.trans ?_ (ih _ _ _ hh); hp_mid)
 
+/-! ## One phase transition of the connection task -/
+
+/-- Outcome of one phase transition: continue (in the same poll) with a new configuration, or the
+poll ends. -/
+inductive Step
+  | next (c : Conn)
+  | halt (c : Conn) (r : PRes)
+
+/-- handler fuel passed by `pollConn` -/
+def handlerFuel (e : Env) : Nat := 1000 + e.tr.input.length * 4 + (e.segs.map (·.2.length)).sum * 4
+
+/-- The body of `pollConn` with the recursive calls replaced by `.next`. -/
+def stepConn (c : Conn) : Step :=
+  match c.phase with
+  | .finished => .halt c .finished
+  | .parseReq rp sub =>
+    if c.stop then .halt { c with phase := .finished, env := c.env } .finished
+    else
+      match sub with
+      | .start =>
+        match rp.parse [] with
+        | (_, none) => .halt c (.panic "request parser panicked")
+        | (rp, some y) => .next { c with phase := .parseReq rp (.writing y.output y.done) }
+      | .reading =>
+        match c.env.tr.read rp.free with
+        | (t, .pending) => .halt { c with env := { c.env with tr := t } } .pending
+        | (t, .ready (.error _)) => .halt { c with phase := .finished, env := { c.env with tr := t } } .finished
+        | (t, .ready (.ok [])) => .halt { c with phase := .finished, env := { c.env with tr := t } } .finished
+        | (t, .ready (.ok bs)) =>
+          match rp.parse bs with
+          | (_, none) => .halt { c with env := { c.env with tr := t } } (.panic "request parser panicked")
+          | (rp, some y) =>
+            .next { c with phase := .parseReq rp (.writing y.output y.done), env := { c.env with tr := t } }
+      | .writing rest done =>
+        match writeAllLoop (rest.length + 1) rest c.env.tr with
+        | (rest, t, .pending) => .halt { c with phase := .parseReq rp (.writing rest done), env := { c.env with tr := t } } .pending
+        | (_, t, .err _) => .halt { c with phase := .finished, env := { c.env with tr := t } } .finished
+        | (_, t, .panic s) => .halt { c with env := { c.env with tr := t } } (.panic s)
+        | (_, t, .ready) =>
+          let c := { c with env := { c.env with tr := t } }
+          if !done then .next { c with phase := .parseReq rp .reading }
+          else match rp.intoStreamParser with
+            | .error _ => .halt { c with phase := .finished, env := c.env } .finished
+            | .ok sp =>
+              let r := AReq.new sp
+              let (ops, prop, scripts) := match c.scripts with | [] => ([], true, []) | (o, p) :: s => (o, p, s)
+              let rq := sp.request
+              let env' := c.env.ev s!"HS({rq.role},{rq.flags.toNat},{showEnvLine rq.env})"
+              let hs : HState := { ops := ops, propagate := prop }
+              .next { c with phase := .handler r hs, scripts := scripts, env := env' }
+  | .handler r h =>
+    match handlerPoll (1000 + c.env.tr.input.length * 4 + (c.env.segs.map (·.2.length)).sum * 4) r h c.env with
+    | (r, h, e, .pending) => .halt { c with phase := .handler r h, env := e } .pending
+    | (_, _, e, .panic s) => .halt { c with env := e } (.panic s)
+    | (r, h, e, .done res) =>
+      let alive := (h.writers.filter Option.isSome).length
+      match res with
+      | .ok st => .next { c with phase := .closing r .start st alive, env := e.ev s!"HE(ok:{showStatus st})" }
+      | .error x =>
+        if x == .connectionAborted then
+          .next { c with phase := .closing r .start ExitStatus.abort alive, env := e.ev "HE(err:aborted)" }
+        else .halt { c with phase := .finished, env := e.ev s!"HE(err:{showIo x})" } .finished
+  | .closing r cs status alive =>
+    match closePoll r cs status alive c.env.mutex c.env.tr with
+    | (r, cs, m, t, .pending) => .halt { c with phase := .closing r cs status alive, env := { c.env with mutex := m, tr := t } } .pending
+    | (_, _, m, t, .panic s) => .halt { c with env := { c.env with mutex := m, tr := t } } (.panic s)
+    | (_, _, m, t, .err _) => .halt { c with phase := .finished, env := { c.env with mutex := m, tr := t } } .finished
+    | (_, _, m, t, .reuse rp) => .next { c with phase := .parseReq rp .start, env := { c.env with mutex := m, tr := t } }
+
+/-- continue with `f` after a `.next`, stop at a `.halt` -/
+def Step.run (f : Conn → Conn × PRes) : Step → Conn × PRes
+  | .next c' => f c'
+  | .halt c' r => (c', r)
+
+/-- `pollConn` is the iteration of `stepConn`. -/
+theorem pollConn_succ (fuel : Nat) (c : Conn) :
+    pollConn (fuel + 1) c = (stepConn c).run (pollConn fuel) := by
+  obtain ⟨phase, env, scripts, stop⟩ := c
+  cases phase with
+  | finished => rfl
+  | parseReq rp sub =>
+    cases stop
+    · cases sub with
+      | start =>
+        simp only [pollConn, stepConn]
+        generalize rp.parse [] = x
+        obtain ⟨a, b⟩ := x
+        cases b <;> rfl
+      | reading =>
+        simp only [pollConn, stepConn]
+        generalize env.tr.read rp.free = x
+        obtain ⟨t, pr⟩ := x
+        cases pr with
+        | pending => rfl
+        | ready ex =>
+          cases ex with
+          | error e => rfl
+          | ok bs =>
+            cases bs with
+            | nil => rfl
+            | cons b bs =>
+              simp only []
+              generalize rp.parse (b :: bs) = x
+              obtain ⟨a, b⟩ := x
+              cases b <;> rfl
+      | writing rest done =>
+        simp only [pollConn, stepConn]
+        generalize writeAllLoop (rest.length + 1) rest env.tr = x
+        obtain ⟨a, t, res⟩ := x
+        cases res with
+        | ready =>
+          simp only []
+          cases done
+          · rfl
+          · cases rp.intoStreamParser <;> rfl
+        | _ => rfl
+    · rfl
+  | handler r h =>
+    simp only [pollConn, stepConn]
+    generalize handlerPoll _ r h env = x
+    obtain ⟨r', h', e, res⟩ := x
+    cases res with
+    | done res =>
+      cases res with
+      | ok st => rfl
+      | error x => simp only []; split <;> rfl
+    | _ => rfl
+  | closing r cs status alive =>
+    simp only [pollConn, stepConn]
+    generalize closePoll r cs status alive env.mutex env.tr = x
+    obtain ⟨r', cs', m, t, res⟩ := x
+    cases res <;> rfl
+
+theorem pollConn_zero (c : Conn) : pollConn 0 c = (c, .panic "model: connection fuel exhausted") := rfl
+
+/-! ## What a phase transition does to the trace, the flag and the script list -/
+
+def Step.conn : Step → Conn
+  | .next c => c
+  | .halt c _ => c
+
+/-- the `HS(…)` event of a request -/
+def hsEvent (rq : Request) : String := s!"HS({rq.role},{rq.flags.toNat},{showEnvLine rq.env})"
+
+theorem isHS_hsEvent (rq : Request) : isHS (hsEvent rq) = true := by
+  simp [isHS, hsEvent, toString_str]
+
+/-- `c'` is a later configuration of the same connection task: the flag is unchanged, the trace grew,
+one script was consumed per `HS(` event, and with the flag raised there was no `HS(` event. -/
+structure CLe (c c' : Conn) : Prop where
+  stop : c'.stop = c.stop
+  ev : ∃ new, c'.env.tr.events = c.env.tr.events ++ new ∧ c'.scripts = c.scripts.drop (hsCount new) ∧
+        (c.stop = true → Quiet new)
+  wl : ∃ w, c'.env.tr.wlog = c.env.tr.wlog ++ w
+  inp : ∃ d, c.env.tr.input = d ++ c'.env.tr.input
+
+theorem CLe.refl (c : Conn) : CLe c c :=
+  ⟨rfl, ⟨[], by simp, by simp [hsCount], fun _ => Quiet.nil⟩, ⟨[], by simp⟩, ⟨[], by simp⟩⟩
+
+theorem CLe.trans {a b c : Conn} (h1 : CLe a b) (h2 : CLe b c) : CLe a c := by
+  obtain ⟨s1, ⟨n1, e1, sc1, q1⟩, ⟨w1, l1⟩, ⟨d1, i1⟩⟩ := h1
+  obtain ⟨s2, ⟨n2, e2, sc2, q2⟩, ⟨w2, l2⟩, ⟨d2, i2⟩⟩ := h2
+  refine ⟨s2.trans s1, ⟨n1 ++ n2, by rw [e2, e1, List.append_assoc], ?_, ?_⟩,
+    ⟨w1 ++ w2, by rw [l2, l1, List.append_assoc]⟩, ⟨d1 ++ d2, by rw [i1, i2, List.append_assoc]⟩⟩
+  · rw [sc2, sc1, List.drop_drop, hsCount_append]
+  · intro hs; exact (q1 hs).append (q2 (s1.trans hs))
+
+theorem CLe.of_tle {c c' : Conn} (hs : c'.stop = c.stop) (hsc : c'.scripts = c.scripts)
+    (h : TLe c.env.tr c'.env.tr) : CLe c c' := by
+  obtain ⟨⟨n, e, q⟩, w, d⟩ := h
+  exact ⟨hs, ⟨n, e, by rw [hsCount_eq_zero q]; simpa using hsc, fun _ => q⟩, w, d⟩
+
+theorem CLe.hs_start {c : Conn} {t : Transport} (hstop : c.stop = false) (ht : TLe c.env.tr t)
+    (rq : Request) (ph : Phase) :
+    CLe c { phase := ph, env := ({ c.env with tr := t }).ev (hsEvent rq), scripts := c.scripts.drop 1,
+            stop := c.stop } := by
+  obtain ⟨⟨n, e, q⟩, ⟨w, hw⟩, ⟨d, hd⟩⟩ := ht
+  refine ⟨rfl, ⟨n ++ [hsEvent rq], ?_, ?_, fun hf => by rw [hstop] at hf; cases hf⟩, ⟨w, hw⟩, ⟨d, hd⟩⟩
+  · show (t.events ++ [hsEvent rq]) = _
+    rw [e, List.append_assoc]
+  · rw [hsCount_append, hsCount_eq_zero q, hsCount_single_true (isHS_hsEvent _)]
+
+theorem stepConn_cle (c : Conn) : CLe c (stepConn c).conn := by
+  obtain ⟨phase, env, scripts, stop⟩ := c
+  cases phase with
+  | finished => exact .refl _
+  | handler r h =>
+    simp only [stepConn]
+    repeat' split
+    all_goals
+      refine CLe.of_tle rfl rfl ?_
+      first
+        | exact handlerPoll_le _ _ _ _ ‹_›
+        | exact (handlerPoll_le _ _ _ _ ‹_›).trans (TLe.ev_of _ (by simp [isHS, toString_str]))
+  | closing r cs status alive =>
+    simp only [stepConn]
+    repeat' split
+    all_goals exact CLe.of_tle rfl rfl (closePoll_le ‹_›)
+  | parseReq rp sub =>
+    cases stop with
+    | true => exact CLe.of_tle rfl rfl (.refl _)
+    | false =>
+      cases sub with
+      | start =>
+        simp only [stepConn, Bool.false_eq_true, if_false]
+        repeat' split
+        all_goals exact CLe.of_tle rfl rfl (.refl _)
+      | reading =>
+        simp only [stepConn, Bool.false_eq_true, if_false]
+        repeat' split
+        all_goals exact CLe.of_tle rfl rfl (read_le ‹_›)
+      | writing rest done =>
+        simp only [stepConn, Bool.false_eq_true, if_false]
+        repeat' split
+        all_goals first
+          | exact CLe.of_tle rfl rfl (writeAllLoop_le _ _ _ ‹_›)
+          | exact CLe.hs_start rfl (writeAllLoop_le _ _ _ ‹_›) _ _
+
 end Fcgi.Run
